@@ -252,6 +252,23 @@ def bounded_variants(seed, n_per_country):
                         not isinstance(ref, (T.ExcTag, T.Escape)) and not isinstance(got, (T.ExcTag, T.Escape)) and got == ref)
                     if not same:
                         return count, dict(text=p, variant=v, via="from_bban", outcome=repr(ref), variant_outcome=repr(got))
+            # generation from components: whitespace / case inside a component must not matter either (also when the
+            # component is shorter than its field and gets padded)
+            x = T.native_obs(lambda: IBAN(p))
+            if not isinstance(x, (T.ExcTag, T.Escape)) and x.account_code and x.bank_code:
+                acct = x.account_code.lstrip("0") or "0"
+                comps = (x.bank_code, acct, x.branch_code)
+                ref = T.native_obs(lambda: IBAN.generate(cc, comps[0], comps[1], comps[2]))
+                for j in range(3):
+                    va = " ".join(acct[k:k + 3] for k in range(0, len(acct), 3)).lower() if j == 0 else variants(rnd, acct)[6 + j]
+                    vb = comps[0].lower() if j == 1 else comps[0]
+                    count += 1
+                    got = T.native_obs(lambda: IBAN.generate(cc, vb, va, comps[2]))
+                    same = (isinstance(ref, T.ExcTag) and got == ref) or (
+                        not isinstance(ref, (T.ExcTag, T.Escape)) and not isinstance(got, (T.ExcTag, T.Escape)) and got == ref)
+                    if not same:
+                        return count, dict(text=p, variant=[cc, vb, va, comps[2]], via="generate", components=[cc, *comps],
+                                           outcome=repr(ref), variant_outcome=repr(got))
     for p in ["GENODEM1GLS", "MARKDEF1100", "DEUTDEFF", "GENODEM1GL", "1234DEWWXXX", "AAAAXX22"]:
         ref = T.native_obs(lambda: BIC(p))
         for v in variants(rnd, p):
@@ -268,7 +285,10 @@ class VariantReplay:
     def native_agree(self, wit):
         from schwifty import BIC, IBAN
         cls = IBAN if len(wit["text"]) > 11 else BIC
-        if wit.get("via") == "from_bban":
+        if wit.get("via") == "generate":
+            a = T.native_obs(lambda: IBAN.generate(*wit["components"]))
+            b = T.native_obs(lambda: IBAN.generate(*wit["variant"]))
+        elif wit.get("via") == "from_bban":
             a = T.native_obs(lambda: IBAN.from_bban(wit["text"][:2], wit["text"][4:]))
             b = T.native_obs(lambda: IBAN.from_bban(wit["text"][:2].lower(), wit["variant"]))
         else:
